@@ -653,8 +653,12 @@ theorem repOf_s (new : AStr.Repl) (h : ReplOk new) (obj : AStr) (i nid : Nat) :
     simp only [repOf, replText]
     rw [applyFormatting_s, setAnsi_plain raw nid h]
 
-theorem advance_eq (new : AStr.Repl) : new.advance = (replText new).length := by
-  cases new <;> rfl
+theorem advance_eq (new : AStr.Repl) (h : ReplOk new) : new.advance = (replText new).length := by
+  cases new with
+  | astr v => rfl
+  | str raw =>
+    simp only [AStr.Repl.advance, replText, AStr.len]
+    rw [setAnsi_plain raw 0 h]
 
 /-- text of one loop step: `obj[:i] + rep + obj[i+len(old):]` -/
 theorem step_s (old : Str) (new : AStr.Repl) (h : ReplOk new) (obj : AStr) (i nid : Nat) :
@@ -715,7 +719,7 @@ theorem replaceLoop_s (old : Str) (hold : old ≠ []) (new : AStr.Repl) (hnew : 
           | cons _ _ => rfl
         have hfrom : k + done.length + new.advance + (if old.isEmpty = true then 1 else 0) =
             (done ++ pre ++ replText new).length + 0 := by
-          rw [hold0, advance_eq]; simp; omega
+          rw [hold0, advance_eq new hnew]; simp; omega
         generalize hobj' : ((obj.getSlice none (some ((k + done.length : Nat) : Int))).iadd
           (repOf new obj (k + done.length) nid).1).iadd
             (obj.getSlice (some ((k + done.length + old.length : Nat) : Int)) none) = obj' at hstep ⊢
@@ -771,13 +775,13 @@ theorem replaceLoop_empty_s (new : AStr.Repl) (hnew : ReplOk new) (R : Str → I
       | nil =>
         have hfind : Py.find obj'.s [] (done.length + new.advance +
             (if ([] : Str).isEmpty = true then 1 else 0)) = none := by
-          rw [find_empty, hstep, advance_eq]; simp
+          rw [find_empty, hstep, advance_eq new hnew]; simp
         rw [hfind, replaceLoop_none, hstep, Z1 _ hc, List.append_nil]
       | cons a r =>
         have hfind : Py.find obj'.s [] (done.length + new.advance +
             (if ([] : Str).isEmpty = true then 1 else 0)) =
             some (done ++ replText new ++ [a]).length := by
-          rw [find_empty, hstep, advance_eq]; simp; omega
+          rw [find_empty, hstep, advance_eq new hnew]; simp; omega
         rw [hfind, ih obj' _ _ (done ++ replText new ++ [a]) r (by rw [hstep]; simp)
           (by simp at hfuel; omega), Z2 a r count hc]
         simp
